@@ -510,6 +510,11 @@ def sample_decl(d, regime, rng):
         return v
     if d.kind == 'unit4':
         if regime == 'identity': return [0.0, 0.0, 0.0, 1.0]
+        if regime == 'halfturn':                      # rotation by exactly pi: w is exactly 0
+            ax = [rng.gauss(0, 1) for _ in range(3)]
+            if rng.random() < 0.4: ax = [[1.0, 0, 0], [0, 1.0, 0], [0, 0, 1.0]][rng.randrange(3)]
+            n = math.sqrt(sum(a * a for a in ax))
+            return [ax[0] / n, ax[1] / n, ax[2] / n, 0.0]
         ax = [rng.gauss(0, 1) for _ in range(3)]
         n = math.sqrt(sum(a * a for a in ax)) or 1.0
         ax = [a / n for a in ax]
@@ -625,7 +630,6 @@ def find_witness(env, orc, ctx, seed, tries, eps_value):
 def _z3_witness(env, orc, ctx, eps_value):
     """when sampling fails (equality-constrained paths): a z3 model is a true witness provided the
     context has no transcendental atoms"""
-    if any(k not in ('sym', 'sqrt') for k in ctx.kind): return None
     try:
         m = smt.model(list(orc.path) + [f for f in ctx.facts], 5000)
     except Exception:
